@@ -37,9 +37,9 @@ m = {
         'add_only': True,
     },
     'engines': [
-        {'name': 'coord', 'path': 'harness/cmd/kvh/coord.go', 'serves_properties': [p for p in sorted(PROPS) if PROPS[p]['engine'] == 'coord'],
-         'kind_free_text': 'one cycle of the real Coordinator against scripted shards; outcomes matched against Coord.cycle through a schedule search in the Lean driver'},
-    ] + [dict(e, serves_properties=[p for p in sorted(PROPS) if PROPS[p]['engine'] == e['name']]) for e in ENGINES if any(PROPS[p]['engine'] == e['name'] for p in PROPS)],
+        {'name': 'coord', 'path': 'harness/cmd/kvh/coord.go', 'serves_properties': [p for p in sorted(PROPS) if PROPS[p]['engine'] == 'coord' or 'coord' in PROPS[p].get('extra_engines', [])],
+         'kind_free_text': 'the real Coordinator against scripted shards: one cycle, a second cycle on the same Coordinator object with the same script, a third one in which the explorer has forgotten its estimates; every outcome matched against Coord.cycle of its input through a schedule search in the Lean driver'},
+    ] + [dict(e, serves_properties=[p for p in sorted(PROPS) if PROPS[p]['engine'] == e['name'] or e['name'] in PROPS[p].get('extra_engines', [])]) for e in ENGINES if any(PROPS[p]['engine'] == e['name'] for p in PROPS)],
     'checks': checks,
     'not_applicable': [{'property_id': k, 'reason': v} for k, v in sorted(NOT_APPLICABLE.items()) if k not in PROPS],
     'notes': 'All checks share bin/check; see DESIGN.md. Lean model and theorems under lean/, extractor under extract/, harness under harness/.',
